@@ -19,16 +19,18 @@ from ufl.sobolevspace import H1, L2, HCurl, HDiv, HDivDiv, HEin
 
 
 class FE(AbstractFiniteElement):
-    def __init__(self, family, cell, degree, rshape, pullback, sobolev, sub_elements=(), tag=None):
+    def __init__(self, family, cell, degree, rshape, pullback, sobolev, sub_elements=(), tag=None, subdegree=None):
         self._family = family
         self._cell = cell
         self._degree = degree
+        self._subdegree = degree if subdegree is None else subdegree
         self._rshape = tuple(rshape)
         self._pullback = pullback
         self._sobolev = sobolev
         self._subs = list(sub_elements)
         self._repr = tag or (
-            f"FE({family!r}, {cell!r}, {degree}, {self._rshape}, {pullback!r}, {sobolev!s}, {self._subs!r})"
+            f"FE({family!r}, {cell!r}, {degree}, {self._rshape}, {pullback!r}, {sobolev!s}, {self._subs!r}"
+            + (f", subdegree={subdegree}" if subdegree is not None else "") + ")"
         )
 
     def __repr__(self):
@@ -57,7 +59,7 @@ class FE(AbstractFiniteElement):
 
     @property
     def embedded_subdegree(self):
-        return self._degree
+        return self._subdegree
 
     @property
     def cell(self):
@@ -74,6 +76,12 @@ class FE(AbstractFiniteElement):
 
 def P(cell, degree=1, shape=()):
     return FE("Lagrange", cell, degree, shape, identity_pullback, H1)
+
+
+def Enriched(cell, degree=1, shape=(), subdegree=0):
+    """An element that does not contain all polynomials of its highest degree (e.g. lowest-order Nedelec / Raviart-Thomas
+    in physical space, bubble-enriched spaces): sub-degree < super-degree."""
+    return FE("Enriched", cell, degree, shape, identity_pullback, H1, subdegree=subdegree)
 
 
 def DG(cell, degree=0, shape=()):
